@@ -77,7 +77,8 @@ func checkC01(c *Ctx) {
 	}
 
 	// (1) census of writers
-	r.Floor("C01.1-lastID-writer-roles", 5)
+	r.Floor("C01.1-lastID-writer-roles", 3)
+	roleSeen := map[string]bool{}
 	var incrStores []*ssa.Store
 	for _, a := range c.censusField(lastID) {
 		if a.Kind != "store" {
@@ -102,6 +103,7 @@ func checkC01(c *Ctx) {
 			continue
 		}
 		r.OK("C01.1-lastID-writer-roles", construct, c.pos(st), "value shape matches role")
+		roleSeen[role] = true
 
 		// (3) confinement
 		roots := ri.of(a.Fn)
@@ -140,27 +142,41 @@ func checkC01(c *Ctx) {
 	// (1e) restore completeness: in every init function that restores lastID, every path from
 	// "stored topic found" (non-nil result of store.Topics.Get) to a successful return passes the restore.
 	topicsGet := c.E().storeIface("TopicsPersistenceInterface", "Get")
+	for _, role := range []string{"increment", "init-from-stored-topic", "proxy-mirror"} {
+		r.Check(roleSeen[role], "C01.1-lastID-writer-roles", "a writer of Topic.lastID with role "+role+" exists", "-", "", "no writer of Topic.lastID with this role: anchor lost or rule vacuous")
+	}
 	r.Floor("C01.1e-restore-on-every-load-path", 3)
-	for _, a := range c.censusField(lastID) {
-		if a.Kind != "store" {
+	isInitRoot := map[*ssa.Function]bool{}
+	for _, f := range initRoots {
+		isInitRoot[f] = true
+	}
+	isRestore := core.Deep(func(in ssa.Instruction) bool {
+		st, ok := in.(*ssa.Store)
+		if !ok {
+			return false
+		}
+		f, _ := core.FieldOfAddr(st.Addr)
+		return f == lastID && core.Derives(st.Val, core.IsFieldLoad(seqIdTopic), true)
+	}, 2, nil)
+	for _, fn := range c.funcsCalling(topicsGet, "server") {
+		// loaders: functions that run only on the init goroutine (they build the Topic before its actor starts)
+		onInit := len(ri.of(fn)) > 0
+		for rt := range ri.of(fn) {
+			if !isInitRoot[rt] {
+				onInit = false
+			}
+		}
+		if !onInit {
 			continue
 		}
-		st := a.Instr.(*ssa.Store)
-		if !core.Derives(st.Val, core.IsFieldLoad(seqIdTopic), true) {
-			continue
-		}
-		gets := core.CallsTo(a.Fn, topicsGet)
-		construct := fk(a.Fn) + ": Topic.lastID restored on every path that found the stored topic"
-		if len(gets) == 0 {
-			r.Fail("C01.1e-restore-on-every-load-path", construct, c.pos(st), "restore site is not in the function that loads the topic row: undecided")
-			continue
-		}
-		for _, g := range gets {
+		r.Func(fk(fn))
+		construct := fk(fn) + ": Topic.lastID restored on every path that found the stored topic"
+		for _, g := range core.CallsTo(fn, topicsGet) {
 			isStopic := errResultOf(g, 0)
-			errIdx := errIndex(a.Fn.Signature)
+			errIdx := errIndex(fn.Signature)
 			miss := false
 			tested := false
-			res := core.NilWalk(a.Fn, nil, nil, func(in ssa.Instruction) bool { return in == ssa.Instruction(st) },
+			res := core.NilWalk(fn, nil, nil, isRestore,
 				func(in ssa.Instruction, f core.NilFacts) {
 					for v, isNil := range f {
 						if isStopic(v) {
@@ -175,7 +191,7 @@ func checkC01(c *Ctx) {
 				r.Fail("C01.1e-restore-on-every-load-path", construct, c.pos(g), "result of store.Topics.Get is not tested for nil, or path exploration overflowed: undecided")
 				continue
 			}
-			r.Check(!miss, "C01.1e-restore-on-every-load-path", construct, c.pos(st),
+			r.Check(!miss, "C01.1e-restore-on-every-load-path", construct, c.pos(g),
 				"every successful load of an existing topic restores lastID from the stored SeqId",
 				"some path loads an existing topic and returns success without restoring Topic.lastID: numbering restarts below ids already issued")
 		}
